@@ -418,6 +418,35 @@ Definition op_drep (v : opv) (n : Z) (ia oa : nat) : option opv :=
   | _, _ => None
   end.
 
+(** axis arguments as the user gives them (operator/_stack.py:297-316, after fix 20c9a7e):
+    a negative axis counts from the end of the *replicated* shape ([rank + 1 + a]); an axis
+    outside [0, rank] is a ValueError ([None]) *)
+Definition norm_axis (rank : nat) (a : Z) : option nat :=
+  let a' := if a <? 0 then Z.of_nat rank + 1 + a else a in
+  if (a' <? 0) || (Z.of_nat rank <? a') then None else Some (Z.to_nat a').
+
+(** [output_axis = None] means "the (normalised) input axis"; it is *not* range-checked
+    against the operand's output rank by the constructor *)
+Definition drep_axes (ri ro : nat) (ia : Z) (oa : option Z) : option (nat * nat) :=
+  match norm_axis ri ia with
+  | None => None
+  | Some ki =>
+      match oa with
+      | None => Some (ki, ki)
+      | Some z => option_map (fun ko => (ki, ko)) (norm_axis ro z)
+      end
+  end.
+
+Definition op_drep_z (v : opv) (n : Z) (ia : Z) (oa : option Z) : option opv :=
+  match ish (o_m v), osh (o_m v) with
+  | Plain si, Plain so =>
+      match drep_axes (length si) (length so) ia oa with
+      | None => None
+      | Some (ki, ko) => op_drep v n ki ko
+      end
+  | _, _ => None
+  end.
+
 (** Operator.freeze (_operator.py:360-409): the new Operator is created with the default
     input dtype float32 and probes on zeros of that dtype; the frozen value has dtype [vd] *)
 Definition op_freeze (v : opv) (argnum : nat) (vd : dt) : option opv :=
@@ -453,7 +482,7 @@ Inductive ox :=
 | XComp (a b : ox)
 | XVStack (a b : ox) (collapse : bool)
 | XDStack (a b : ox) (ci co : bool)
-| XDRep (e : ox) (n : Z) (ia oa : nat)
+| XDRep (e : ox) (n : Z) (ia : Z) (oa : option Z)
 | XFreeze (e : ox) (argnum : nat) (vd : dt).
 
 Fixpoint build (e : ox) : option opv :=
@@ -472,7 +501,7 @@ Fixpoint build (e : ox) : option opv :=
   | XComp a b => obind (build a) (fun x => obind (build b) (op_comp x))
   | XVStack a b c => obind (build a) (fun x => obind (build b) (fun y => op_vstack [x; y] c))
   | XDStack a b ci co => obind (build a) (fun x => obind (build b) (fun y => op_dstack [x; y] ci co))
-  | XDRep e n ia oa => obind (build e) (fun x => op_drep x n ia oa)
+  | XDRep e n ia oa => obind (build e) (fun x => op_drep_z x n ia oa)
   | XFreeze e k vd => obind (build e) (fun x => op_freeze x k vd)
   end.
 
